@@ -1,10 +1,19 @@
 use std::sync::{mpsc::Sender, Arc, Mutex};
 
-use dic::base::{
-    entry::Entry,
-    speech::{NounVariant, Speech},
+use dic::{
+    base::{
+        dictionary::Dictionary,
+        entry::Entry,
+        io::DictionaryReader,
+        speech::{NounVariant, Speech},
+    },
+    standard::io::StandardDictionaryReader,
 };
-use jsonrpsee::{core::RpcResult, RpcModule};
+use jsonrpsee::{
+    core::RpcResult,
+    types::{error::INVALID_PARAMS_CODE, ErrorObject},
+    RpcModule,
+};
 use kkc::{context::Context, get_candidates, get_tankan_candidates, Candidate};
 use serde::{Deserialize, Serialize};
 
@@ -321,6 +330,15 @@ pub struct RegisterWordResponse {}
 /// # Arguments
 /// * `module` - 登録するmodule
 /// * `entry_updater` - 単語を登録するためのchannel
+/// ユーザー辞書に保存した内容を、次回起動時にそのまま読み戻せるentryかどうかを返す
+fn is_storable(entry: &Entry) -> bool {
+    let line = entry.to_string();
+    let mut restored = Dictionary::new(vec![]);
+    let mut reader = StandardDictionaryReader::new(line.as_bytes());
+
+    matches!(reader.read_all(&mut restored), Ok(1)) && restored.entries_ref().first() == Some(entry)
+}
+
 pub(crate) fn make_register_word(
     module: &mut RpcModule<MethodContext>,
     entry_updater: Sender<Entry>,
@@ -341,6 +359,14 @@ pub(crate) fn make_register_word(
                     Speech::Noun(NounVariant::Proper),
                 ),
             };
+            // 保存できない(空の語幹や空白を含むなど)単語は、再起動で消えてしまうので受け付けない
+            if !is_storable(&entry) {
+                return RpcResult::Err(ErrorObject::owned(
+                    INVALID_PARAMS_CODE,
+                    "the word can not be stored in the user dictionary",
+                    None::<()>,
+                ));
+            }
             entry_updater.send(entry).unwrap();
         }
 
